@@ -20,7 +20,7 @@ TECHNIQUE = ('stateful property-based testing of the option store against a dict
 RULE = ('(A) option algebra: Hypothesis-drawn programs of set_options / nested options() blocks whose body may raise / invalid names and values (alone or mixed with valid ones) / '
         'option-sensitive edits with per-call options, executed against a dict model written from the documentation: after every step FST.get_options() equals the model; '
         'a block restores exactly the options it named, also when its body raises; a rejected request changes nothing (options and, for per-call options, the tree); '
-        'every edit of a table of 14 option-sensitive edits gives the same result with an option passed per call, set by a block and set as default; whenever the model is '
+        'every edit of a table of 21 option-sensitive edits (7 through the assignment-style API); every ordered pair of them with default options: the second gives its baseline result, in the same thread and in a new one; every edit gives the same result with an option passed per call, set by a block and set as default; whenever the model is '
         'back at the library defaults the edits give their baseline results. (B) threads: 2-3 worker threads, each with its own tree, its own option steps and an edit script, '
         'are run by a scheduler that owns the interleaving: at operation granularity (every drawn order of steps) and with line-level pre-emption inside pfst calls '
         '(sys.settrace in the workers, drawn pre-emption points); observed per thread: get_options() after every step, result / exception of every edit, final source and '
@@ -147,7 +147,74 @@ def _e_args_as(o):
     return f.src
 
 
-EDITS = (_e_trivia, _e_pars, _e_walrus, _e_norm, _e_norm_get, _e_elif, _e_docstr, _e_pep8, _e_arglike, _e_raw, _e_coerce, _e_promote, _e_op_side, _e_args_as)
+# assignment-style API (attribute / index assignment and deletion): these calls carry no options of their own, whatever an operation sets
+# internally must not survive the call
+def _e_assign_import(o):
+    with FST.options(**o):
+        f = FST('import a, b', 'stmt')
+        f.names[0] = 'x as y'
+
+        return f.src
+
+
+def _e_assign_importfrom(o):
+    with FST.options(**o):
+        f = FST('from m import a, b', 'stmt')
+        f.names[1] = 'x as y'
+        del f.names[0]
+
+        return f.src
+
+
+def _e_assign_binop(o):
+    with FST.options(**o):
+        f = FST('x = a * b', 'exec')
+        f.body[0].value.left = 'c + d'
+
+        return f.src
+
+
+def _e_assign_call(o):
+    with FST.options(**o):
+        f = FST('r = f(a, k=v)', 'exec')
+        f.body[0].value.args[0] = 'p if q else r'
+        f.body[0].value.keywords[0] = 'kk=(yield)'
+        f.body[0].value.func = 'lambda: g'
+
+        return f.src
+
+
+def _e_assign_stmt(o):
+    with FST.options(**o):
+        f = FST('if a:\n    x  # c\n    y\nelse:\n    z', 'exec')
+        f.body[0].body[0] = 'w = (1,\n 2)'
+        del f.body[0].orelse[0]
+        f.body[0].test = 'b := c'
+
+        return f.src
+
+
+def _e_assign_args(o):
+    with FST.options(**o):
+        f = FST('def f(a, b=1, *c): pass\nwith p as q: pass', 'exec')
+        f.body[0].args.args[0] = 'z: int'
+        f.body[0].args.defaults[0] = 'u, v'
+        f.body[1].items[0] = 'r, s'
+
+        return f.src
+
+
+def _e_assign_slice(o):
+    with FST.options(**o):
+        f = FST('x = [a, b, c]\nt = u, v', 'exec')
+        f.body[0].value.elts[1:2] = 'p, (q := 1)'
+        f.body[1].value.elts[0] = 'i, j'
+        del f.body[0].value.elts[0]
+
+        return f.src
+
+
+EDITS = (_e_assign_import, _e_assign_importfrom, _e_assign_binop, _e_assign_call, _e_assign_stmt, _e_assign_args, _e_assign_slice, _e_trivia, _e_pars, _e_walrus, _e_norm, _e_norm_get, _e_elif, _e_docstr, _e_pep8, _e_arglike, _e_raw, _e_coerce, _e_promote, _e_op_side, _e_args_as)
 _DEFAULTS = None
 _BASELINE = None
 
@@ -182,6 +249,20 @@ def baseline():
         _BASELINE = box[0]
 
     return _BASELINE
+
+
+def enumerate_cases(tier, shard, nshards, seed):
+    """Every ordered pair (A, B) of the option-sensitive edits, with default options: B after A must give B's baseline result (nothing an operation
+    sets internally - e.g. a forced pars=False - may survive the call), in the same thread and from another thread."""
+
+    k = 0
+
+    for a in range(len(EDITS)):
+        for b in range(len(EDITS)):
+            k += 1
+
+            if k % nshards == shard:
+                yield {'kind': 'pair', 'a': a, 'b': b}
 
 
 def params(tier):
@@ -670,8 +751,43 @@ def execute_threads(case, ctx):
                                    'script_0': [s[0] for s in specs[0]['script']]} if sched.switches % 7 == 0 else None)
 
 
+def execute_pair(case, ctx):
+    base = baseline()
+    ea, eb = EDITS[case['a']], EDITS[case['b']]
+    box = []
+
+    def work():
+        ra = run_catch(lambda: ea({}))
+        rb = run_catch(lambda: eb({}))
+        box.append((ra, rb, FST.get_options()))
+
+    t = threading.Thread(target=work)
+    t.start()
+    t.join()
+    ra, rb, opts = box[0]
+    box2 = []
+    t = threading.Thread(target=lambda: box2.append(run_catch(lambda: eb({}))))  # B in a brand new thread after A ran elsewhere
+    t.start()
+    t.join()
+    ctx.count('pairs')
+
+    for name, got, want in ((f'{ea.__name__} (first)', ra, base[case['a']]), (f'{eb.__name__} after {ea.__name__} (same thread)', rb, base[case['b']]),
+                            (f'{eb.__name__} in a new thread after {ea.__name__} ran', box2[0], base[case['b']])):
+        if got != want:
+            raise Violation('C20.call_leak', f'{name} with default options gives {got!r}, alone it gives {want!r}', f'call_leak:{ea.__name__}->{eb.__name__}')
+
+    if not same_opts(opts, library_defaults()):
+        raise Violation('C20.store', f'after {ea.__name__} and {eb.__name__} with default options get_options() is {opts}', 'store:pair')
+
+    if case['a'] != case['b']:
+        ctx.mark_nontrivial(('pair', case['a'], case['b']), {'first': ea.__name__, 'then': eb.__name__, 'result': str(rb)[:120]} if (case['a'] * 31 + case['b']) % 97 == 0 else None)
+
+
 def execute(case, ctx):
     ctx.count(f'kind:{case["kind"]}')
+
+    if case['kind'] == 'pair':
+        return execute_pair(case, ctx)
 
     if case['kind'] == 'algebra':
         execute_algebra(case, ctx)
